@@ -1,5 +1,133 @@
-"""placeholder"""
+"""C18: partitioning helpers ConeCyl.exclude_dofs_matrix / ConeCyl.calc_full_c.
+
+calc_full_c  : symbolic execution of the real method for every admissible set of prescribed amplitudes, reduced vectors of
+               concrete small lengths with symbolic entries and symbolic load factor (numpy's own insert on symbolic entries).
+exclude_dofs_matrix : *bounded run-time stand-in* on the real code (scipy COO internals are outside the symbolic executor):
+               random COO matrices (duplicates included) of sizes 4..7, all four admissible sets of prescribed amplitudes; checked
+               against the statement  (K c)[free] == K_uu c_u + sum_k K_uk[:, k] * ck_k  with c = calc_full_c(c_u).
+"""
+from ..poly import P
+from .. import kharness as K, pysym
+from ..pysym import real, to_z3
+from ..pyreplay import run_real
+from . import py_conecyl as PC
+
+FC = PC.CC + 'calc_full_c'
+EX = PC.CC + 'exclude_dofs_matrix'
+
+SUBSETS = {'pdLA': (False, False), 'pdC,pdLA': (True, False), 'pdT,pdLA': (False, True), 'pdC,pdT,pdLA': (True, True)}
+
+
+def check_full_c(led):
+    led.function(FC)
+    import numpy as np
+    for tag, (pdC, pdT) in SUBSETS.items():
+        for M1, M2, N2 in ((1, 1, 1), (2, 1, 2)):
+            it = PC.mk()
+            size = 3 + 3 * M1 + 6 * M2 * N2
+            excl = ([0] if pdC else []) + ([1] if pdT else []) + [2]
+            free = [k for k in range(size) if k not in excl]
+            inc, uTM, thT, beta = real('inc'), real('uTM'), real('thetaTdeg'), real('betadeg')
+            for full in (False, True):
+                n = size if full else len(free)
+                cu = np.array([real('c%d' % k) for k in range(n)], dtype=object)
+
+                def run():
+                    cc = PC.new_cc(it, model='clpt_donnell_bc1', alphadeg=0., r2=real('r2'), L=real('L'), m1=M1, m2=M2, n2=N2, pdC=pdC, pdT=pdT,
+                                   uTM=uTM, thetaTdeg=thT, betadeg=beta, stack=[real('th0')], plyt=real('plyt'), laminaprop=(real('E1'),))
+                    it.call(it.getattr(cc, '_rebuild'), [], {})
+                    return cc, it.call(it.getattr(cc, 'calc_full_c'), [cu], dict(inc=inc))
+                it.facts += [to_z3(real('r2')) > 0, to_z3(real('L')) > 0]
+                res = it.explore(run)
+                name = '%s[%s,size=%d,%s]' % (FC, tag, size, 'full-size input' if full else 'reduced input')
+                for path, out in res:
+                    if out[0] == 'raise':
+                        led.fail(name + '/no-exception', FC, {'raises': out[1].tname, 'args': [str(a)[:100] for a in out[1].eargs]}, signature='raise')
+                        continue
+                    cc, c = out[1]
+                    ck = dict(zip(cc.attrs['excluded_dofs'], cc.attrs['excluded_dofs_ck']))
+                    probs = []
+                    if len(c) != size:
+                        probs.append('length %d instead of %d' % (len(c), size))
+                    else:
+                        for pos, k in enumerate(free):
+                            want = cu[k] if full else cu[pos]
+                            if not K.compare(c[k] if isinstance(c[k], P) else P.const(c[k]), want)[0]:
+                                probs.append('free amplitude %d: %s' % (k, c[k]))
+                        for k in excl:
+                            want = inc * cu[k] if full else inc * ck[k]
+                            if not K.compare(c[k] if isinstance(c[k], P) else P.const(c[k]), want)[0]:
+                                probs.append('prescribed amplitude %d: %s instead of %s' % (k, c[k], want))
+                        if sorted(ck) != sorted(excl):
+                            probs.append('excluded_dofs %s' % (sorted(ck),))
+                    if probs:
+                        led.fail(name + '/free entries kept, prescribed entries inc*ck', FC, {'differences': probs[:6]}, signature='full_c')
+                    else:
+                        led.ok(name + '/free entries kept, prescribed entries inc*ck', FC, backend='symbolic-instance(bounded in length)')
+
+
+SCRIPT = r'''
+import numpy as np
+from scipy.sparse import coo_matrix
+from compmech.conecyl import ConeCyl
+rs = np.random.RandomState(payload['seed'])
+bad = []
+n_cases = 0
+for pdC in (False, True):
+    for pdT in (False, True):
+        for (m1, m2, n2) in ((1, 1, 1), (2, 1, 1)):
+            cc = ConeCyl()
+            cc.model = 'clpt_donnell_bc1'; cc.m1, cc.m2, cc.n2 = m1, m2, n2
+            cc.r2 = 100.; cc.L = 200.; cc.alphadeg = 0.
+            cc.stack = [0.]; cc.plyt = 1.; cc.laminaprop = (1., 1., 0.3, 1., 1., 1.)
+            cc.pdC, cc.pdT = pdC, pdT
+            cc.uTM = 0.37; cc.thetaTdeg = 1.3; cc.betadeg = 2.1
+            cc._rebuild()
+            n = cc.get_size()
+            excl = list(cc.excluded_dofs)
+            free = [k for k in range(n) if k not in excl]
+            for trial in range(12):
+                nnz = rs.randint(1, 3*n)
+                r = rs.randint(0, n, size=nnz); c = rs.randint(0, n, size=nnz); v = rs.uniform(-2, 2, size=nnz)
+                Kc = coo_matrix((v, (r, c)), shape=(n, n))
+                D = Kc.toarray()
+                n_cases += 1
+                out = cc.exclude_dofs_matrix(coo_matrix((v.copy(), (r.copy(), c.copy())), shape=(n, n)), return_kuk=True)
+                kuu = out['kuu'].toarray(); kuk = np.asarray(out['kuk'])
+                cu = rs.uniform(-1, 1, size=len(free))
+                inc = 0.7
+                cfull = cc.calc_full_c(cu, inc=inc)
+                lhs = D.dot(cfull)[free]
+                ck = dict(zip(cc.excluded_dofs, cc.excluded_dofs_ck))
+                rhs = kuu.dot(cu) + sum(kuk[:, k]*inc*ck[k] for k in excl)
+                ok = (kuu.shape == (len(free), len(free)) and kuk.shape == (len(free), 3) and np.allclose(kuu, D[np.ix_(free, free)])
+                      and np.allclose(kuk, D[np.ix_(free, [0, 1, 2])]) and np.allclose(lhs, rhs)
+                      and np.allclose(np.delete(cfull, excl), cu))
+                if not ok:
+                    bad.append({'pdC': pdC, 'pdT': pdT, 'n': n, 'rows': r.tolist(), 'cols': c.tolist(), 'vals': v.tolist()})
+out = {'cases': n_cases, 'n_bad': len(bad), 'first': bad[:2]}
+'''
+
+
+def check_exclude(led):
+    led.function(EX)
+    r = run_real(SCRIPT, {'seed': int(led.seed) % 1000 if hasattr(led, 'seed') else 0})
+    if r.get('raised') or r.get('replay_error'):
+        led.error('exclude_dofs_matrix stand-in could not run: %s' % (r.get('raised') or r.get('replay_error')))
+        return
+    led.bounded_item('ConeCyl.exclude_dofs_matrix: run-time contract on %s random COO matrices (sizes 12 and 15, duplicates included), all four '
+                     'admissible sets of prescribed amplitudes (bounded stand-in, not counted as proved)' % r.get('cases'))
+    name = EX + '/bounded-run-time-contract[(K c)[free] == Kuu cu + Kuk ck; Kuu, Kuk are the sub-blocks]'
+    if r.get('n_bad'):
+        led.fail(name, EX, {'violating_cases': r['n_bad'], 'first': r['first'][0] if r['first'] else {}}, backend='run-time(bounded)',
+                 replay={'reproduced': True, 'input': r['first'][0] if r['first'] else {}, 'real_function': 'ConeCyl.exclude_dofs_matrix'},
+                 signature='standin:exclude')
+    else:
+        led.ok(name, EX, backend='run-time(bounded)')
 
 
 def check(led):
-    pass
+    led.bounded_item('ConeCyl.calc_full_c: proved symbolically for vectors of the sizes 12 and 21 (all entries, load factor and prescribed values '
+                     'symbolic), all four admissible sets of prescribed amplitudes; bounded in the vector length only')
+    check_full_c(led)
+    check_exclude(led)
